@@ -266,6 +266,9 @@ def run(ctx):
     if regressed:
         ctx.notes.append("sites back in the pre-fix form (old F7 class expected to reappear): %s" % regressed)
     form = {s: "fixed" for s in detected}
+    if inv.get("moved"):
+        ctx.notes.append("inventory: %d site(s) recognised by shape (moved / renamed): %s" % (
+            len(inv["moved"]), "; ".join("%s fn %s %s" % (e["file"].split("/")[-1], e["fn"], e["expr"][:40]) for e in inv["moved"][:8])))
     static_problems = ["%s fn %s [%s] %s (line %s)" % (e["file"], e["fn"], e["kind"], e["expr"], e["lines"])
                        for e in inv["unclassified"] + inv["grown"]]
     # header constants used with HeaderName::from_static must be lower-case tokens
